@@ -524,6 +524,53 @@ func collectAtomic(p *pkgInfo, s Site) []atomicOp {
 	return out
 }
 
+// site kind "literal": every composite literal whose type (as written) matches Re, in the functions matching Func:
+// the fields it sets, each with the source text of its value (in source order)
+type litSite struct {
+	loc    string
+	fields [][2]string
+}
+
+func collectLiteral(p *pkgInfo, s Site) []litSite {
+	var out []litSite
+	re := regexp.MustCompile(s.Re)
+	var fre *regexp.Regexp
+	if s.Func != "" {
+		fre = regexp.MustCompile("^(" + s.Func + ")$")
+	}
+	for i, f := range p.files {
+		if s.File != "" && p.names[i] != s.File {
+			continue
+		}
+		for _, d := range f.Decls {
+			fd, ok := d.(*ast.FuncDecl)
+			if !ok || fd.Body == nil {
+				continue
+			}
+			if fre != nil && !fre.MatchString(fd.Name.Name) {
+				continue
+			}
+			ast.Inspect(fd.Body, func(n ast.Node) bool {
+				cl, ok := n.(*ast.CompositeLit)
+				if !ok || cl.Type == nil || !re.MatchString(show(p.fset, cl.Type)) {
+					return true
+				}
+				ls := litSite{loc: fmt.Sprintf("%s %s", p.names[i], fd.Name.Name)}
+				for _, e := range cl.Elts {
+					if kv, ok := e.(*ast.KeyValueExpr); ok {
+						ls.fields = append(ls.fields, [2]string{show(p.fset, kv.Key), show(p.fset, kv.Value)})
+					} else {
+						ls.fields = append(ls.fields, [2]string{"", show(p.fset, e)})
+					}
+				}
+				out = append(out, ls)
+				return true
+			})
+		}
+	}
+	return out
+}
+
 func coqStr(s string) string { return "\"" + strings.ReplaceAll(s, "\"", "\"\"") + "\"" }
 
 func coqStrList(l []string) string {
@@ -622,6 +669,25 @@ func main() {
 					rows = append(rows, fmt.Sprintf("([%s], %s)", strings.Join(r.vals, "; "), coqStr(r.sel)))
 				}
 				fmt.Fprintf(&b, "\n  (%s, [%s])", coqStr(t.loc), strings.Join(rows, "; "))
+			}
+			b.WriteString("].\n\n")
+			continue
+		}
+		if s.Kind == "literal" {
+			lits := collectLiteral(p, s)
+			sitesReport[s.Name] = len(lits)
+			nsites += len(lits)
+			fmt.Fprintf(&b, "(* site %s: composite literals of type /%s/ in %s %s %s *)\n", s.Name, s.Re, s.Pkg, s.File, s.Func)
+			fmt.Fprintf(&b, "Definition %s_lits : list (string * list (string * string)) := [", s.Name)
+			for i, l := range lits {
+				if i > 0 {
+					b.WriteString(";")
+				}
+				var fl []string
+				for _, kv := range l.fields {
+					fl = append(fl, fmt.Sprintf("(%s, %s)", coqStr(kv[0]), coqStr(kv[1])))
+				}
+				fmt.Fprintf(&b, "\n  (%s, [%s])", coqStr(l.loc), strings.Join(fl, "; "))
 			}
 			b.WriteString("].\n\n")
 			continue
